@@ -120,7 +120,7 @@ fn main() {
                 return;
             }
         };
-        let alpha = if cv.name.starts_with("hyphen:") || cv.name.starts_with("negnum:") || cv.name.starts_with("posorder:") { conv::hyphen_alphabet() } else { conv::alphabet(&cv.spec) };
+        let alpha = if cv.name.contains(':') { conv::hyphen_alphabet() } else { conv::alphabet(&cv.spec) };
         let mut h = Hist::new();
         let mut argv: Vec<Vec<u8>> = vec![];
         let mut idx = 0u64;
